@@ -186,6 +186,10 @@ def mcfg_entry(f, rep):
     ent = vec.segs[-1][1]
     ety = ent.ty if isinstance(ent, StructV) else None
     segs = emit_value(I, ent, ety) if ety and f.method('Aml', ety, 'to_aml_bytes') else None
+    if segs is None and ety and not I.tops:
+        # an entry type without a serialiser of its own is delivered through its layout bytes (`entries.as_bytes()`)
+        lb = I.as_bytes(ent, ety)
+        segs = norm_segs(lb) if isinstance(lb, list) else None
     if segs is None or I.tops: rep.undecided('layout', 'mcfg::MCFG::add_ecam', I.tops or [('entry is not serialisable', cb['sp'])], cb['sp']); return
     P = {n_: a for (n_, _), a in zip(params_of(cb)[1:], args)}
     want = [('int', P['base_addr'], 8), ('int', P['segment'], 2), ('int', P['start_bus'], 1), ('int', P['end_bus'], 1), ('int', ZERO, 4)]
